@@ -109,6 +109,26 @@ def rule_compare(chk, cl):
     rounds = [c for c in F.exprs(cl["thir"], "Call") if short(c.get("fn") or "") == "next_multiple_of"]
     ok_r = len(rounds) == 2 and all(any(x.get("name") == "size" for x in F.exprs(c["args"][0], "Field")) and any(x.get("name") == "align" for x in F.exprs(c["args"][1], "Field")) for c in rounds)
     chk.ob("C19.shape/round-to-align", ok_r, "both total sizes are rounded up to their alignment" if ok_r else "total sizes are no longer rounded up to the struct alignment before comparison", where(cl))
+    # each layout is rounded with its OWN alignment and written back to its own size: X.size = X.size.next_multiple_of(X.align)
+    own = []
+    for a in F.walk(cl["thir"]):
+        if a.get("k") != "Assign":
+            continue
+        r = F.strip(a["r"])
+        if r.get("k") == "Call" and short(r.get("fn") or "") == "next_multiple_of":
+            ids = [(F.leftmost_var(x) or {}).get("id") for x in (a["l"], r["args"][0], r["args"][1])]
+            names = [(F.leftmost_var(x) or {}).get("name") for x in (a["l"], r["args"][0], r["args"][1])]
+            own.append((ids, names))
+    mixed = [n for ids, n in own if len(set(ids)) != 1 or ids[0] is None]
+    cmp_ids = set()
+    for n in F.exprs(cl["thir"], "If"):
+        c = F.strip(n["cond"])
+        if c.get("k") == "Binary" and c["op"] == "Ne":
+            cmp_ids = {(F.leftmost_var(x) or {}).get("id") for x in F.exprs(c, "Field") if x["name"] == "size"}
+    ok_o = len(own) == 2 and not mixed and {ids[0] for ids, _ in own} == cmp_ids
+    chk.ob("C19.shape/round-own-align", ok_o, "each layout's size is rounded to that layout's own alignment, and those two layouts are the ones compared" if ok_o else
+           ("a total size is rounded with another layout's alignment or written to another layout (%s): trailing padding of one target is lost and differing layouts compare equal"
+            % (mixed or [n for _, n in own])), where(cl))
     ok_c = False
     for n in F.exprs(cl["thir"], "If"):
         c = F.strip(n["cond"])
